@@ -764,3 +764,554 @@ Proof.
   intros NO E. destruct (gather_complete_lemma lg ped ids arr NO) as (acc & rej & P1 & P2 & L).
   rewrite E in L. destruct rej; [|discriminate]. rewrite app_nil_r in P1. rewrite P2. apply Permutation_map. symmetry. exact P1.
 Qed.
+
+(* ------------------------------------------------------------------ *)
+(* family headers along the collect loop                               *)
+(* ------------------------------------------------------------------ *)
+Definition hdr3 (f : family) : str * str * Z := (f_name f, f_help f, f_type f).
+Definition e_name (e : emitted) : str := ds_name (e_desc e).
+Definition e_help (e : emitted) : str := ds_help (e_desc e).
+
+Lemma add_metric_hdr3 n m fs : map hdr3 (add_metric n m fs) = map hdr3 fs.
+Proof.
+  induction fs as [|g r IH]; simpl; [reflexivity|].
+  destruct (str_eqb (f_name g) n); simpl; [reflexivity|]. rewrite IH. reflexivity.
+Qed.
+
+Lemma finish_hdr3 lg reg d fname fhelp ftype m fs keys st' o :
+  finish_metric lg reg d fname fhelp ftype m fs keys = (st', o) -> map hdr3 (fst st') = map hdr3 fs.
+Proof.
+  unfold finish_metric. destruct (check_metric_consistency lg fname ftype m keys) as [e|[m' keys']].
+  - intros H; inversion H; reflexivity.
+  - destruct reg as [ids|].
+    + destruct (negb (z_in (ds_id d) ids)); [intros H; inversion H; reflexivity|].
+      destruct (check_desc_consistency fhelp m' d); intros H; inversion H; simpl; [reflexivity|apply add_metric_hdr3].
+    + intros H; inversion H; simpl. apply add_metric_hdr3.
+Qed.
+
+Lemma first_type_payload m ty : first_type m = Some ty -> payload_for ty m = Some true.
+Proof.
+  unfold first_type. destruct (d_gauge m) eqn:G; [intros H; inversion H; unfold payload_for; simpl; rewrite G; reflexivity|].
+  destruct (d_counter m) eqn:C; [intros H; inversion H; unfold payload_for; simpl; rewrite C; reflexivity|].
+  destruct (d_summary m) eqn:S; [intros H; inversion H; unfold payload_for; simpl; rewrite S; reflexivity|].
+  destruct (d_untyped m) eqn:U; [intros H; inversion H; unfold payload_for; simpl; rewrite U; reflexivity|].
+  destruct (d_hist m) eqn:Hh; [intros H; inversion H; unfold payload_for; simpl; rewrite Hh; reflexivity|]. discriminate.
+Qed.
+
+Lemma process_hdr lg reg e st st' o :
+  process_metric lg reg e st = (st', o) ->
+  (map hdr3 (fst st') = map hdr3 (fst st) \/
+   exists ty, map hdr3 (fst st') = map hdr3 (fst st) ++ [(e_name e, e_help e, ty)] /\ first_type (e_dto e) = Some ty) /\
+  (o = None -> exists ty, In (e_name e, e_help e, ty) (map hdr3 (fst st')) /\ payload_for ty (e_dto e) = Some true).
+Proof.
+  destruct st as [fs keys]. unfold process_metric, e_name, e_help. intros H.
+  destruct (ds_err (e_desc e)); [inversion H; subst; split; [left; reflexivity|discriminate]|].
+  destruct (e_write_err e); [inversion H; subst; split; [left; reflexivity|discriminate]|].
+  destruct (find_fam (ds_name (e_desc e)) fs) as [mf|] eqn:FF.
+  - destruct (str_eqb (f_help mf) (ds_help (e_desc e))) eqn:HE; simpl in H; [|inversion H; subst; split; [left; reflexivity|discriminate]].
+    destruct (payload_for (f_type mf) (e_dto e)) as [[|]|] eqn:P; try (inversion H; subst; split; [left; reflexivity|discriminate]; fail).
+    pose proof (finish_hdr3 _ _ _ _ _ _ _ _ _ _ _ H) as Q. split; [left; exact Q|]. intros _.
+    exists (f_type mf). split; [|exact P]. rewrite Q.
+    destruct (find_fam_some _ _ _ FF) as [IM NM]. apply str_eqb_eq in HE.
+    apply in_map_iff. exists mf. split; [|exact IM]. unfold hdr3. rewrite NM, HE. reflexivity.
+  - destruct (first_type (e_dto e)) as [ty|] eqn:FT; [|inversion H; subst; split; [left; reflexivity|discriminate]].
+    destruct (check_suffix_collisions (ds_name (e_desc e)) ty fs); [inversion H; subst; split; [left; reflexivity|discriminate]|].
+    pose proof (finish_hdr3 _ _ _ _ _ _ _ _ _ _ _ H) as Q. rewrite map_app in Q. simpl in Q.
+    split; [right; exists ty; split; [exact Q|reflexivity]|]. intros _. exists ty. split; [|apply first_type_payload; exact FT].
+    rewrite Q. apply in_or_app. right. left. reflexivity.
+Qed.
+
+Lemma run_hdr lg ped ids arr : forall st st' errs,
+  run lg ped ids arr st = (st', errs) ->
+  incl (map hdr3 (fst st)) (map hdr3 (fst st')) /\
+  (forall h, In h (map hdr3 (fst st')) -> In h (map hdr3 (fst st)) \/
+     exists e ty, In e arr /\ h = (e_name e, e_help e, ty) /\ first_type (e_dto e) = Some ty) /\
+  (errs = [] -> forall e, In e arr ->
+     exists ty, In (e_name e, e_help e, ty) (map hdr3 (fst st')) /\ payload_for ty (e_dto e) = Some true).
+Proof.
+  induction arr as [|e r IH]; intros st st' errs H.
+  - simpl in H. inversion H; subst. split; [apply incl_refl|]. split; [intros h Ih; left; exact Ih|intros _ e []].
+  - simpl in H.
+    destruct (process_metric lg (reg_for ped ids e) e st) as [st1 o] eqn:P.
+    destruct (run lg ped ids r st1) as [st2 errs'] eqn:R. inversion H; subst st2 errs. clear H.
+    destruct (process_hdr _ _ _ _ _ _ P) as [S1 S2]. destruct (IH _ _ _ R) as (I1 & I2 & I3).
+    assert (INC : incl (map hdr3 (fst st)) (map hdr3 (fst st1))).
+    { destruct S1 as [Q|(ty & Q & _)]; rewrite Q; [apply incl_refl|apply incl_appl; apply incl_refl]. }
+    split; [eapply incl_tran; eassumption|]. split.
+    + intros h Ih. destruct (I2 h Ih) as [J|(x & ty & Ix & Eh & Fx)].
+      * destruct S1 as [Q|(ty & Q & FT)]; rewrite Q in J; [left; exact J|].
+        apply in_app_or in J. destruct J as [J|[J|[]]]; [left; exact J|].
+        right. exists e, ty. split; [left; reflexivity|]. split; [symmetry; exact J|exact FT].
+      * right. exists x, ty. split; [right; exact Ix|]. split; assumption.
+    + intros EE. destruct o as [k|]; [discriminate|]. simpl in EE.
+      intros x [Ix|Ix].
+      * subst x. destruct (S2 eq_refl) as (ty & Ity & Pty). exists ty. split; [apply I1; exact Ity|exact Pty].
+      * apply I3; assumption.
+Qed.
+
+Definition prio (t : Z) : Z := if t =? ty_gauge then 0 else if t =? ty_counter then 1 else t.
+
+Lemma first_type_prio m t t' : first_type m = Some t -> payload_for t' m = Some true -> prio t <= prio t'.
+Proof.
+  unfold first_type, payload_for, prio, ty_counter, ty_gauge, ty_summary, ty_untyped, ty_histogram.
+  destruct (t' =? 0) eqn:E0; [apply Z.eqb_eq in E0; subst t'|];
+  [|destruct (t' =? 1) eqn:E1; [apply Z.eqb_eq in E1; subst t'|];
+    [|destruct (t' =? 2) eqn:E2; [apply Z.eqb_eq in E2; subst t'|];
+      [|destruct (t' =? 3) eqn:E3; [apply Z.eqb_eq in E3; subst t'|];
+        [|destruct (t' =? 4) eqn:E4; [apply Z.eqb_eq in E4; subst t'|discriminate]]]]];
+  destruct (d_gauge m), (d_counter m), (d_summary m), (d_untyped m), (d_hist m); intros H1 H2;
+    inversion H1; subst; try discriminate; simpl; lia.
+Qed.
+
+Lemma prio_inj t t' : 0 <= t <= 4 -> 0 <= t' <= 4 -> prio t = prio t' -> t = t'.
+Proof.
+  intros R R'. assert (C : t = 0 \/ t = 1 \/ t = 2 \/ t = 3 \/ t = 4) by lia.
+  assert (C' : t' = 0 \/ t' = 1 \/ t' = 2 \/ t' = 3 \/ t' = 4) by lia.
+  destruct C as [->|[->|[->|[->| ->]]]]; destruct C' as [->|[->|[->|[->| ->]]]]; unfold prio; simpl; lia.
+Qed.
+
+Lemma hdr3_unique fs n h t h' t' :
+  NoDup (map f_name fs) -> In (n, h, t) (map hdr3 fs) -> In (n, h', t') (map hdr3 fs) -> h = h' /\ t = t'.
+Proof.
+  intros N I1 I2. apply in_map_iff in I1. destruct I1 as (f & Ef & If). apply in_map_iff in I2. destruct I2 as (g & Eg & Ig).
+  unfold hdr3 in *. inversion Ef; subst. inversion Eg; subst.
+  assert (f = g).
+  { pose proof (find_fam_nodup _ _ N If) as A. pose proof (find_fam_nodup _ _ N Ig) as B. rewrite <- H0 in A. congruence. }
+  subst. auto.
+Qed.
+
+(* ------------------------------------------------------------------ *)
+(* two strictly sorted lists with the same elements are equal          *)
+(* ------------------------------------------------------------------ *)
+Lemma strictly_sorted_unique l1 : forall l2,
+  strictly_sorted l1 = true -> strictly_sorted l2 = true -> (forall x, In x l1 <-> In x l2) -> l1 = l2.
+Proof.
+  induction l1 as [|a l1 IH]; intros [|b l2] S1 S2 E.
+  - reflexivity.
+  - exfalso. apply (proj2 (E b)). left. reflexivity.
+  - exfalso. apply (proj1 (E a)). left. reflexivity.
+  - pose proof (strictly_sorted_lt_all _ _ S1) as F1. pose proof (strictly_sorted_lt_all _ _ S2) as F2.
+    rewrite Forall_forall in F1, F2.
+    assert (a = b).
+    { destruct (proj1 (E a) (or_introl eq_refl)) as [Q|Q]; [auto|].
+      destruct (proj2 (E b) (or_introl eq_refl)) as [Q'|Q']; [auto|].
+      pose proof (F2 _ Q) as A. pose proof (F1 _ Q') as B. apply str_ltb_asym in A. congruence. }
+    subst b. f_equal. apply IH; [eapply strictly_sorted_tail; eassumption|eapply strictly_sorted_tail; eassumption|].
+    pose proof (strictly_sorted_nodup _ S1) as N1. pose proof (strictly_sorted_nodup _ S2) as N2.
+    inversion N1; subst. inversion N2; subst.
+    intros x. split; intros Ix.
+    + destruct (proj1 (E x) (or_intror Ix)) as [Q|Q]; [subst; contradiction|exact Q].
+    + destruct (proj2 (E x) (or_intror Ix)) as [Q|Q]; [subst; contradiction|exact Q].
+Qed.
+
+Lemma Permutation_filter' {A} (p : A -> bool) l l' : Permutation l l' -> Permutation (filter p l) (filter p l').
+Proof.
+  induction 1; simpl.
+  - constructor.
+  - destruct (p x); [constructor|]; assumption.
+  - destruct (p x), (p y); try reflexivity. apply perm_swap.
+  - etransitivity; eassumption.
+Qed.
+
+Definition by_name (n : str) (nm : str * dmetric) : bool := str_eqb (fst nm) n.
+
+Lemma filter_by_name_same n ms : filter (by_name n) (map (fun m => (n, m)) ms) = map (fun m => (n, m)) ms.
+Proof. induction ms as [|m r IH]; simpl; [reflexivity|]. unfold by_name at 1. simpl. rewrite str_eqb_refl. rewrite IH. reflexivity. Qed.
+
+Lemma filter_by_name_diff n n' (ms : list dmetric) : n' <> n -> filter (by_name n) (map (fun m => (n', m)) ms) = [].
+Proof.
+  intros D. induction ms as [|m r IH]; simpl; [reflexivity|]. unfold by_name at 1. simpl.
+  apply str_eqb_neq in D. rewrite D. exact IH.
+Qed.
+
+Lemma all_metrics_cons g r : all_metrics (g :: r) = map (fun m => (f_name g, m)) (f_metrics g) ++ all_metrics r.
+Proof. reflexivity. Qed.
+
+Lemma filter_by_name_absent n fs : ~ In n (map f_name fs) -> filter (by_name n) (all_metrics fs) = [].
+Proof.
+  induction fs as [|g r IH]; intros N; [reflexivity|].
+  rewrite all_metrics_cons. rewrite filter_app. rewrite filter_by_name_diff.
+  - simpl. apply IH. intros I. apply N. right. exact I.
+  - intros Q. apply N. left. exact Q.
+Qed.
+
+Lemma metrics_by_filter fs f :
+  NoDup (map f_name fs) -> In f fs ->
+  filter (by_name (f_name f)) (all_metrics fs) = map (fun m => (f_name f, m)) (f_metrics f).
+Proof.
+  induction fs as [|g r IH]; intros N I; [contradiction|]. simpl in N. inversion N; subst.
+  rewrite all_metrics_cons. rewrite filter_app. destruct I as [I|I].
+  - subst g. rewrite filter_by_name_same. rewrite (filter_by_name_absent _ _ H1). apply app_nil_r.
+  - rewrite filter_by_name_diff.
+    + simpl. apply IH; assumption.
+    + intros Q. apply H1. rewrite Q. apply in_map. exact I.
+Qed.
+
+Lemma names_of_all_metrics fs n :
+  no_empty_family fs = true -> (In n (map f_name fs) <-> In n (map fst (all_metrics fs))).
+Proof.
+  intros NE. unfold no_empty_family in NE. rewrite forallb_forall in NE. split; intros I.
+  - apply in_map_iff in I. destruct I as (f & E & If). specialize (NE _ If). unfold nonempty in NE.
+    destruct (f_metrics f) as [|m ms] eqn:M; [discriminate|].
+    apply in_map_iff. exists (n, m). split; [reflexivity|]. unfold all_metrics. apply in_flat_map. exists f. split; [exact If|].
+    rewrite M. left. rewrite E. reflexivity.
+  - apply in_map_iff in I. destruct I as ([n' m] & E & Inm). simpl in E. subst n'.
+    unfold all_metrics in Inm. apply in_flat_map in Inm. destruct Inm as (f & If & Im).
+    apply in_map_iff in Im. destruct Im as (m' & Em & _). inversion Em; subst. apply in_map. exact If.
+Qed.
+
+Lemma forall2_by_name (P : family -> family -> Prop) r1 : forall r2,
+  map f_name r1 = map f_name r2 ->
+  (forall f g, In f r1 -> In g r2 -> f_name f = f_name g -> P f g) -> Forall2 P r1 r2.
+Proof.
+  induction r1 as [|f r1 IH]; intros [|g r2] E H; simpl in E; try discriminate; [constructor|].
+  inversion E. constructor.
+  - apply H; [left; reflexivity|left; reflexivity|assumption].
+  - apply IH; [assumption|]. intros f' g' If Ig. apply H; right; assumption.
+Qed.
+
+Lemma normalize_hdr3_incl fs : incl (map hdr3 (normalize fs)) (map hdr3 fs).
+Proof.
+  intros h I. apply in_map_iff in I. destruct I as (f & E & If).
+  destruct (normalize_in _ _ If) as (g & Ig & Eg & _). subst f h. apply in_map_iff. exists g. split; [reflexivity|exact Ig].
+Qed.
+
+(* same families (name, help, type, in the same order), the metrics of a family up to their order *)
+Definition same_result (r1 r2 : list family) : Prop :=
+  Forall2 (fun f g => hdr3 f = hdr3 g /\ Permutation (f_metrics f) (f_metrics g)) r1 r2.
+
+Lemma gather_order_independent_lemma lg ped ids arr1 arr2 :
+  names_ok arr1 -> Permutation arr1 arr2 ->
+  snd (gather lg ped ids arr1) = [] -> snd (gather lg ped ids arr2) = [] ->
+  same_result (fst (gather lg ped ids arr1)) (fst (gather lg ped ids arr2)).
+Proof.
+  intros NO1 PA E1 E2.
+  assert (NO2 : names_ok arr2).
+  { intros e I. apply NO1. eapply Permutation_in; [symmetry; exact PA|exact I]. }
+  pose proof (gather_all_present_lemma lg ped ids arr1 NO1 E1) as AP1.
+  pose proof (gather_all_present_lemma lg ped ids arr2 NO2 E2) as AP2.
+  unfold gather in *.
+  destruct (run lg ped ids arr1 ([], [])) as [[fs1 k1] er1] eqn:R1.
+  destruct (run lg ped ids arr2 ([], [])) as [[fs2 k2] er2] eqn:R2. simpl in *. subst er1 er2.
+  destruct (run_effect _ _ _ _ _ _ _ (inv_empty lg) NO1 R1) as [I1 _].
+  destruct (run_effect _ _ _ _ _ _ _ (inv_empty lg) NO2 R2) as [I2 _].
+  destruct (normalize_valid _ _ _ I1) as (V1 & NE1 & _). destruct (normalize_valid _ _ _ I2) as (V2 & NE2 & _).
+  destruct (run_hdr _ _ _ _ _ _ _ R1) as (_ & C1 & A1). destruct (run_hdr _ _ _ _ _ _ _ R2) as (_ & C2 & A2).
+  simpl in *. specialize (A1 eq_refl). specialize (A2 eq_refl).
+  assert (PM : Permutation (all_metrics (normalize fs1)) (all_metrics (normalize fs2))).
+  { rewrite AP1, AP2. apply Permutation_map. exact PA. }
+  unfold valid_result in V1, V2.
+  apply andb_true_iff in V1. destruct V1 as [V1 _]. apply andb_true_iff in V1. destruct V1 as [V1 _].
+  apply andb_true_iff in V1. destruct V1 as [S1 _].
+  apply andb_true_iff in V2. destruct V2 as [V2 _]. apply andb_true_iff in V2. destruct V2 as [V2 _].
+  apply andb_true_iff in V2. destruct V2 as [S2 _].
+  assert (NAMES : map f_name (normalize fs1) = map f_name (normalize fs2)).
+  { apply strictly_sorted_unique; [exact S1|exact S2|]. intros n.
+    rewrite (names_of_all_metrics _ n NE1), (names_of_all_metrics _ n NE2).
+    split; intros I; eapply Permutation_in; try exact I; apply Permutation_map; [exact PM|symmetry; exact PM]. }
+  apply forall2_by_name; [exact NAMES|].
+  intros f g If Ig EN.
+  pose proof (strictly_sorted_nodup _ S1) as N1. pose proof (strictly_sorted_nodup _ S2) as N2.
+  split.
+  - (* headers *)
+    assert (Hf : In (hdr3 f) (map hdr3 fs1)) by (apply normalize_hdr3_incl; apply in_map; exact If).
+    assert (Hg : In (hdr3 g) (map hdr3 fs2)) by (apply normalize_hdr3_incl; apply in_map; exact Ig).
+    destruct (C1 _ Hf) as [[]|(a & ta & Ia & Ea & Fa)]. destruct (C2 _ Hg) as [[]|(b & tb & Ib & Eb & Fb)].
+    unfold hdr3 in Ea, Eb. inversion Ea. inversion Eb. clear Ea Eb.
+    (* a created f in run 1 and was accepted in run 2 into g; b the other way round *)
+    destruct (A2 a (Permutation_in _ PA Ia)) as (t2 & J2 & P2).
+    destruct (A1 b (Permutation_in _ (Permutation_sym PA) Ib)) as (t1 & J1 & P1).
+    rewrite <- H0, EN in J2. unfold hdr3 in Hg.
+    destruct (hdr3_unique _ _ _ _ _ _ (inv_names _ _ I2) J2 Hg) as [Q1 Q2].
+    rewrite <- H3, <- EN in J1. unfold hdr3 in Hf.
+    destruct (hdr3_unique _ _ _ _ _ _ (inv_names _ _ I1) J1 Hf) as [Q3 Q4].
+    unfold hdr3. rewrite EN. rewrite H1, Q1. f_equal.
+    subst t2 t1.
+    pose proof (first_type_prio _ _ _ Fa P2) as L1. pose proof (first_type_prio _ _ _ Fb P1) as L2.
+    pose proof (first_type_range _ _ Fa) as RA. pose proof (first_type_range _ _ Fb) as RB.
+    subst ta tb. apply prio_inj; [exact RA|exact RB|lia].
+  - (* metrics *)
+    pose proof (Permutation_filter' (by_name (f_name f)) _ _ PM) as PF.
+    rewrite (metrics_by_filter _ _ N1 If) in PF. rewrite EN in PF. rewrite (metrics_by_filter _ _ N2 Ig) in PF.
+    apply (Permutation_map snd) in PF. rewrite !map_map in PF. simpl in PF. rewrite !map_id in PF. exact PF.
+Qed.
+
+(* ------------------------------------------------------------------ *)
+(* Gatherers.Gather                                                    *)
+(* ------------------------------------------------------------------ *)
+Lemma find_fam_add_metric n n' m fs f :
+  find_fam n fs = Some f -> exists f', find_fam n (add_metric n' m fs) = Some f' /\ hdr3 f' = hdr3 f.
+Proof.
+  induction fs as [|g r IH]; simpl; [discriminate|].
+  destruct (str_eqb (f_name g) n) eqn:E.
+  - intros H. inversion H; subst. destruct (str_eqb (f_name f) n'); simpl; rewrite E; eexists; split; reflexivity.
+  - intros H. destruct (str_eqb (f_name g) n'); simpl; rewrite E; [eexists; split; [exact H|reflexivity]|]. apply IH. exact H.
+Qed.
+
+Lemma merge_metrics_inv lg fname ftype ms : forall st st' errs f,
+  inv lg st -> find_fam fname (fst st) = Some f -> f_type f = ftype -> 0 <= ftype <= 4 ->
+  merge_metrics lg fname ftype ms st = (st', errs) -> inv lg st'.
+Proof.
+  induction ms as [|m r IH]; intros st st' errs f I FF FT R H; simpl in H.
+  - inversion H; subst. exact I.
+  - destruct st as [fs keys]. simpl in *.
+    destruct (check_metric_consistency lg fname ftype m keys) as [e|[m' keys']] eqn:C.
+    + destruct (merge_metrics lg fname ftype r (fs, keys)) as [st1 errs1] eqn:M. inversion H; subst.
+      exact (IH (fs, keys) st' errs1 f I FF eq_refl R M).
+    + destruct (cmc_ok _ _ _ _ _ _ _ C R) as (_ & K1 & K2 & MO). subst keys'.
+      destruct (find_fam_add_metric fname fname m' fs f FF) as (f' & FF' & HH).
+      eapply (IH (add_metric fname m' fs, metric_key fname m' :: keys)); try exact H; try exact FF'; try exact R.
+      * eapply inv_add; try eassumption. rewrite FT. exact MO.
+      * unfold hdr3 in HH. inversion HH. congruence.
+Qed.
+
+Definition fam_wf (f : family) : Prop := f_name f <> [] /\ 0 <= f_type f <= 4.
+
+Lemma merge_family_inv lg mf st st' errs :
+  inv lg st -> fam_wf mf -> merge_family lg mf st = (st', errs) -> inv lg st'.
+Proof.
+  intros I [NE R] H. unfold merge_family in H. destruct st as [fs keys]. simpl in *.
+  destruct (find_fam (f_name mf) fs) as [ex|] eqn:FF.
+  - destruct (negb (str_eqb (f_help ex) (f_help mf))); [inversion H; subst; exact I|].
+    destruct (f_type ex =? f_type mf) eqn:T; simpl in H; [|inversion H; subst; exact I].
+    apply Z.eqb_eq in T. destruct (find_fam_some _ _ _ FF) as [_ NM].
+    eapply (merge_metrics_inv lg (f_name ex) (f_type ex) _ (fs, keys)); try exact H; try exact I.
+    + simpl. rewrite NM. exact FF.
+    + reflexivity.
+    + rewrite T. exact R.
+  - destruct (check_suffix_collisions (f_name mf) (f_type mf) fs) eqn:CS; [inversion H; subst; exact I|].
+    eapply (merge_metrics_inv lg (f_name mf) (f_type mf) _ (fs ++ [mkF (f_name mf) (f_help mf) (f_type mf) []], keys)); try exact H.
+    + apply inv_push; assumption.
+    + simpl. apply find_fam_push; [exact FF|reflexivity].
+    + reflexivity.
+    + exact R.
+Qed.
+
+Lemma merge_families_inv lg mfs : forall st st' errs,
+  inv lg st -> Forall fam_wf mfs -> merge_families lg mfs st = (st', errs) -> inv lg st'.
+Proof.
+  induction mfs as [|mf r IH]; intros st st' errs I W H; simpl in H.
+  - inversion H; subst. exact I.
+  - destruct (merge_family lg mf st) as [st1 e1] eqn:M. destruct (merge_families lg r st1) as [st2 e2] eqn:N.
+    inversion H; subst. inversion W; subst. eapply IH; [|eassumption|exact N]. eapply merge_family_inv; eassumption.
+Qed.
+
+Definition gs_wf (gs : list (list family * list Z)) : Prop := Forall (fun g => Forall fam_wf (fst g)) gs.
+
+Lemma merge_gatherers_inv lg gs : forall st st' errs,
+  inv lg st -> gs_wf gs -> merge_gatherers lg gs st = (st', errs) -> inv lg st'.
+Proof.
+  induction gs as [|[mfs ge] r IH]; intros st st' errs I W H; simpl in H.
+  - inversion H; subst. exact I.
+  - destruct (merge_families lg mfs st) as [st1 e1] eqn:M. destruct (merge_gatherers lg r st1) as [st2 e2] eqn:N.
+    inversion H; subst. inversion W; subst. eapply IH; [|eassumption|exact N]. eapply merge_families_inv; eassumption.
+Qed.
+
+Lemma gatherers_valid_lemma lg gs :
+  gs_wf gs ->
+  valid_result lg (fst (gatherers_gather lg gs)) = true /\ no_empty_family (fst (gatherers_gather lg gs)) = true.
+Proof.
+  intros W. unfold gatherers_gather. destruct (merge_gatherers lg gs ([], [])) as [[fs keys] errs] eqn:M.
+  pose proof (merge_gatherers_inv _ _ _ _ _ (inv_empty lg) W M) as I.
+  destruct (normalize_valid _ _ _ I) as (V & N & _). simpl. auto.
+Qed.
+
+(* monotonicity: what has been merged stays, with its help and type *)
+Definition ext (fs fs' : list family) : Prop :=
+  forall f, In f fs -> exists f', In f' fs' /\ hdr3 f' = hdr3 f /\ incl (f_metrics f) (f_metrics f').
+
+Lemma ext_refl fs : ext fs fs.
+Proof. intros f I. exists f. split; [exact I|]. split; [reflexivity|apply incl_refl]. Qed.
+
+Lemma ext_trans a b c : ext a b -> ext b c -> ext a c.
+Proof.
+  intros H1 H2 f I. destruct (H1 f I) as (g & Ig & Hg & Mg). destruct (H2 g Ig) as (h & Ih & Hh & Mh).
+  exists h. split; [exact Ih|]. split; [congruence|eapply incl_tran; eassumption].
+Qed.
+
+Lemma ext_add n m fs : ext fs (add_metric n m fs).
+Proof.
+  induction fs as [|g r IH]; intros f I; [contradiction|]. simpl.
+  destruct (str_eqb (f_name g) n) eqn:E.
+  - destruct I as [I|I].
+    + subst g. eexists. split; [left; reflexivity|]. split; [reflexivity|]. simpl. apply incl_appl. apply incl_refl.
+    + exists f. split; [right; exact I|]. split; [reflexivity|apply incl_refl].
+  - destruct I as [I|I].
+    + subst g. exists f. split; [left; reflexivity|]. split; [reflexivity|apply incl_refl].
+    + destruct (IH f I) as (f' & If' & H). exists f'. split; [right; exact If'|exact H].
+Qed.
+
+Lemma ext_push fs g : ext fs (fs ++ [g]).
+Proof. intros f I. exists f. split; [apply in_or_app; left; exact I|]. split; [reflexivity|apply incl_refl]. Qed.
+
+Lemma merge_metrics_ext lg fname ftype ms : forall st st' errs,
+  merge_metrics lg fname ftype ms st = (st', errs) -> ext (fst st) (fst st').
+Proof.
+  induction ms as [|m r IH]; intros st st' errs H; simpl in H.
+  - inversion H; subst. apply ext_refl.
+  - destruct (check_metric_consistency lg fname ftype m (snd st)) as [e|[m' keys']].
+    + destruct (merge_metrics lg fname ftype r st) as [st1 errs1] eqn:M. inversion H; subst. eapply IH. exact M.
+    + eapply ext_trans; [|eapply IH; exact H]. simpl. apply ext_add.
+Qed.
+
+Lemma merge_family_ext lg mf st st' errs : merge_family lg mf st = (st', errs) -> ext (fst st) (fst st').
+Proof.
+  unfold merge_family. destruct (find_fam (f_name mf) (fst st)) as [ex|].
+  - destruct (negb (str_eqb (f_help ex) (f_help mf))); [intros H; inversion H; apply ext_refl|].
+    destruct (negb (f_type ex =? f_type mf)); [intros H; inversion H; apply ext_refl|].
+    apply merge_metrics_ext.
+  - destruct (check_suffix_collisions (f_name mf) (f_type mf) (fst st)); [intros H; inversion H; apply ext_refl|].
+    intros H. eapply ext_trans; [|eapply merge_metrics_ext; exact H]. simpl. apply ext_push.
+Qed.
+
+Lemma merge_families_ext lg mfs : forall st st' errs, merge_families lg mfs st = (st', errs) -> ext (fst st) (fst st').
+Proof.
+  induction mfs as [|mf r IH]; intros st st' errs H; simpl in H.
+  - inversion H; subst. apply ext_refl.
+  - destruct (merge_family lg mf st) as [st1 e1] eqn:M. destruct (merge_families lg r st1) as [st2 e2] eqn:N.
+    inversion H; subst. eapply ext_trans; [eapply merge_family_ext; exact M|eapply IH; exact N].
+Qed.
+
+Lemma merge_gatherers_ext lg gs : forall st st' errs, merge_gatherers lg gs st = (st', errs) -> ext (fst st) (fst st').
+Proof.
+  induction gs as [|[mfs ge] r IH]; intros st st' errs H; simpl in H.
+  - inversion H; subst. apply ext_refl.
+  - destruct (merge_families lg mfs st) as [st1 e1] eqn:M. destruct (merge_gatherers lg r st1) as [st2 e2] eqn:N.
+    inversion H; subst. eapply ext_trans; [eapply merge_families_ext; exact M|eapply IH; exact N].
+Qed.
+
+Lemma merge_gatherers_app lg gs1 gs2 st :
+  merge_gatherers lg (gs1 ++ gs2) st =
+  let (st1, e1) := merge_gatherers lg gs1 st in
+  let (st2, e2) := merge_gatherers lg gs2 st1 in (st2, e1 ++ e2).
+Proof.
+  revert st; induction gs1 as [|[mfs ge] r IH]; intros st; simpl.
+  - destruct (merge_gatherers lg gs2 st). reflexivity.
+  - destruct (merge_families lg mfs st) as [st1 e1]. rewrite IH.
+    destruct (merge_gatherers lg r st1) as [st2 e2]. destruct (merge_gatherers lg gs2 st2) as [st3 e3].
+    rewrite <- !app_assoc. reflexivity.
+Qed.
+
+Lemma normalize_keeps fs g m :
+  In g fs -> In m (f_metrics g) -> exists f, In f (normalize fs) /\ hdr3 f = hdr3 g /\ In m (f_metrics f).
+Proof.
+  intros Ig Im. exists (sort_metrics g). split; [|split; [reflexivity|]].
+  - unfold normalize. eapply Permutation_in; [symmetry; apply isort_perm|]. apply filter_In. split; [apply in_map; exact Ig|].
+    unfold nonempty. simpl. destruct (isort metric_lt (f_metrics g)) eqn:E; [|reflexivity].
+    pose proof (isort_perm metric_lt (f_metrics g)) as P. rewrite E in P. apply Permutation_nil in P. rewrite P in Im. contradiction.
+  - simpl. eapply Permutation_in; [symmetry; apply isort_perm|]. exact Im.
+Qed.
+
+(* first occurrence wins: what the first gatherers gs1 contributed (families with their help and type, metrics)
+   is in the merged result whatever the later gatherers gs2 deliver *)
+Lemma gatherers_first_wins_lemma lg gs1 gs2 g m :
+  In g (fst (fst (merge_gatherers lg gs1 ([], [])))) -> In m (f_metrics g) ->
+  exists f, In f (fst (gatherers_gather lg (gs1 ++ gs2))) /\ hdr3 f = hdr3 g /\ In m (f_metrics f).
+Proof.
+  intros Ig Im. unfold gatherers_gather. rewrite merge_gatherers_app.
+  destruct (merge_gatherers lg gs1 ([], [])) as [st1 e1] eqn:M1.
+  destruct (merge_gatherers lg gs2 st1) as [st2 e2] eqn:M2. simpl in *.
+  destruct (merge_gatherers_ext _ _ _ _ _ M2 g Ig) as (g' & Ig' & H' & Inc).
+  destruct (normalize_keeps _ _ m Ig' (Inc _ Im)) as (f & If & Hf & Imf).
+  exists f. split; [exact If|]. split; [congruence|exact Imf].
+Qed.
+
+(* ------------------------------------------------------------------ *)
+(* concrete witnesses                                                  *)
+(* ------------------------------------------------------------------ *)
+Definition ex_desc : desc := mkDesc false [109] [104] 7 [] [].                 (* NewDesc("m", "h", nil, nil) *)
+Definition ex_counter : dmetric := mkD [] false true false false false None 1.  (* only Counter set *)
+Definition ex_both : dmetric := mkD [] true true false false false (Some 5) 2.  (* Gauge and Counter set, timestamp 5 *)
+Definition ex_a : dmetric := mkD [([97], [49])] true false false false false None 3.   (* gauge {a="1"} *)
+Definition ex_b : dmetric := mkD [([98], [49])] true false false false false None 4.   (* gauge {b="1"} *)
+Definition ex_e (m : dmetric) : emitted := mkE false ex_desc false m.
+
+Lemma ex_names_ok l : names_ok (map ex_e l).
+Proof. intros e I _. apply in_map_iff in I. destruct I as (m & E & _). subst e. discriminate. Qed.
+
+(* the hypotheses of the theorems are satisfiable and the model computes: a duplicate is dropped and reported *)
+Lemma gather_example_lemma :
+  names_ok (map ex_e [ex_a; ex_b; ex_a]) /\
+  gather false false [] (map ex_e [ex_a; ex_b; ex_a]) = ([mkF [109] [104] ty_gauge [ex_a; ex_b]], [e_dup_metric]).
+Proof. split; [apply ex_names_ok|vm_compute; reflexivity]. Qed.
+
+(* REFUTED (strong reading of "whenever no error is reported the result is independent of the order"):
+   with a metric that has two payloads set, one arrival order reports no error and another one does.
+   Confirmed on the real code: custom Metric writing {Counter} and one writing {Gauge, Counter} under one name. *)
+Lemma nil_error_depends_on_order_refuted_lemma :
+  exists lg ped ids arr1 arr2, names_ok arr1 /\ Permutation arr1 arr2 /\
+    snd (gather lg ped ids arr1) = [] /\ snd (gather lg ped ids arr2) <> [].
+Proof.
+  exists false, false, [], (map ex_e [ex_counter; ex_both]), (map ex_e [ex_both; ex_counter]).
+  split; [apply ex_names_ok|]. split; [apply perm_swap|]. split; vm_compute; [reflexivity|discriminate].
+Qed.
+
+(* REFUTED (equality of the returned slices): MetricSorter.Less only compares label VALUES, so two metrics of one family
+   with different label names and equal values are returned in arrival order.  Confirmed on the real code. *)
+Lemma metric_order_depends_on_arrival_refuted_lemma :
+  exists lg ped ids arr1 arr2, names_ok arr1 /\ Permutation arr1 arr2 /\
+    snd (gather lg ped ids arr1) = [] /\ snd (gather lg ped ids arr2) = [] /\
+    fst (gather lg ped ids arr1) <> fst (gather lg ped ids arr2).
+Proof.
+  exists false, false, [], (map ex_e [ex_a; ex_b]), (map ex_e [ex_b; ex_a]).
+  split; [apply ex_names_ok|]. split; [apply perm_swap|]. repeat split; vm_compute; try reflexivity. discriminate.
+Qed.
+
+(* ------------------------------------------------------------------ *)
+(* what the boolean specification checker means                        *)
+(* ------------------------------------------------------------------ *)
+Lemma free_of_nsc fs : no_suffix_collisions fs = true -> suffix_free (map hdr fs).
+Proof.
+  unfold no_suffix_collisions. intros H b n Ib In'. rewrite forallb_forall in H.
+  apply in_map_iff in Ib. destruct Ib as (f & E & If). subst b. simpl. rewrite map_fst_hdr in In'.
+  specialize (H f If). apply andb_true_iff in H. destruct H as [H1 H2].
+  unfold collides.
+  destruct (str_eqb n (f_name f ++ suf_count)) eqn:E1.
+  { apply str_eqb_eq in E1. subst n. apply str_in_In in In'. rewrite In' in H1.
+    destruct ((f_type f =? ty_summary) || (f_type f =? ty_histogram)) eqn:T; [discriminate|].
+    apply orb_false_iff in T. destruct T as [_ T]. rewrite T. reflexivity. }
+  destruct (str_eqb n (f_name f ++ suf_sum)) eqn:E2.
+  { apply str_eqb_eq in E2. subst n. apply str_in_In in In'. rewrite In' in H1.
+    destruct ((f_type f =? ty_summary) || (f_type f =? ty_histogram)) eqn:T; [rewrite andb_false_r in H1; discriminate|].
+    apply orb_false_iff in T. destruct T as [_ T]. rewrite T. reflexivity. }
+  simpl. rewrite andb_false_r. simpl.
+  destruct (str_eqb n (f_name f ++ suf_bucket)) eqn:E3; [|apply andb_false_r].
+  apply str_eqb_eq in E3. subst n. apply str_in_In in In'. rewrite In' in H2.
+  destruct (f_type f =? ty_histogram); [discriminate|reflexivity].
+Qed.
+
+Lemma series_eqb_refl a : series_eqb a a = true.
+Proof. apply series_eqb_eq. reflexivity. Qed.
+
+(* valid_result in words *)
+Lemma valid_result_meaning_lemma lg fs : valid_result lg fs = true ->
+  strictly_sorted (map f_name fs) = true /\ NoDup (map f_name fs) /\
+  (forall f m, In f fs -> In m (f_metrics f) -> metric_ok lg (f_type f) m = true) /\
+  NoDup (map series_of (all_metrics fs)) /\
+  (forall f g, In f fs -> In g fs -> collides (f_name f) (f_type f) (f_name g) = false).
+Proof.
+  unfold valid_result. intros H.
+  apply andb_true_iff in H. destruct H as [H H4]. apply andb_true_iff in H. destruct H as [H H3].
+  apply andb_true_iff in H. destruct H as [H1 H2].
+  split; [exact H1|]. split; [apply strictly_sorted_nodup; exact H1|]. split; [|split].
+  - intros f m If Im. rewrite forallb_forall in H2. specialize (H2 f If). rewrite forallb_forall in H2. apply H2. exact Im.
+  - eapply nodup_of_distinct; [apply series_eqb_refl|exact H3].
+  - intros f g If Ig. apply (free_of_nsc fs H4 (hdr f) (f_name g)); [apply in_map; exact If|].
+    rewrite map_fst_hdr. apply in_map. exact Ig.
+Qed.
+
+(* metric_ok in words *)
+Lemma metric_ok_meaning_lemma lg ty m : metric_ok lg ty m = true ->
+  type_matches ty m = true /\ strictly_sorted (map fst (d_labels m)) = true /\ NoDup (map fst (d_labels m)) /\
+  (forall n v, In (n, v) (d_labels m) -> label_name_ok lg n = true /\ utf8_valid v = true) /\
+  (ty = ty_summary -> ~ In quantile_label (map fst (d_labels m))) /\
+  (ty = ty_histogram -> ~ In bucket_label (map fst (d_labels m))).
+Proof.
+  unfold metric_ok. intros H.
+  apply andb_true_iff in H. destruct H as [H H5]. apply andb_true_iff in H. destruct H as [H H4].
+  apply andb_true_iff in H. destruct H as [H H3]. apply andb_true_iff in H. destruct H as [H1 H2].
+  split; [exact H1|]. split; [exact H2|]. split; [apply strictly_sorted_nodup; exact H2|]. split; [|split].
+  - intros n v I. rewrite forallb_forall in H3. specialize (H3 _ I). simpl in H3. apply andb_true_iff in H3. exact H3.
+  - intros -> I. apply str_in_In in I. rewrite I in H4. discriminate.
+  - intros -> I. apply str_in_In in I. rewrite I in H5. discriminate.
+Qed.
